@@ -27,8 +27,8 @@ claimed = {
          "assumed: the lazy numbering is an injective function num (axiom), the concrete semantics canBe of the eight builtins (ghost definition, transcribed from the language spec), typeutil.IsPointerLike and the ir observers; NOT decided: local soundness of the remaining transfer rules in processBlock (loads, phis, type assertions, sigma nodes), fact import/export, SA4023; the standard abstract-interpretation argument from local soundness to global soundness is a paper step", "DESIGN.md §7 C15"),
  "C17": ("proof that the U1000 verdict is a function of the edge set and merged over variants as stated: SerializedGraph.color is a sound and complete reachability colouring (seen contains the root, is closed under use edges, and is contained in every edge-closed predicate containing the root), quieten never touches the seen bits, Results partitions the nodes by (seen, quiet), and linter.lint keys Used and Unused objects identically and reports exactly the collected unused objects whose key no result marked used",
          "assumed: the least-fixpoint step from (closed, contains root, contained in every closed predicate) to 'seen == reachable' (paper), monotonicity of reachability in the edge set (paper); NOT decided: that the AST walk produces the same edge set under file/declaration permutation, SerializedGraph.Merge (whole-program mode)", "DESIGN.md §7 C17"),
- "C19": ("proof that go/gcsizes implements the compiler's layout rules for every type: Sizeof, Alignof and Offsetsof equal a trusted specification transcribed from go/types' gcSizes (basic sizes, strings/slices/interfaces, arrays, structs with trailing zero-size field rule, complex alignment, max-align clamp) via mutual induction; cmd/structlayout.sizes appends entries that start at the given base and leave earlier entries untouched; structlayout-optimize: align, offsetsof, size, Swap, Less is the documented order and a strict weak order, pad produces a tiling of [0,total) in which every field is aligned and total is a multiple of the largest alignment",
-         "assumed: the transcription of the compiler's rules (axioms gcspec, listed), go/types observers, targets (8,8) and (4,4) only; sort.Sort sorts w.r.t. Less (optimize is one call of it); NOT decided: that the entries of structlayout.sizes chain without gaps up to base+size (obligations sizes#post.chain/#post.end do not discharge and are not counted), combine, minimality of the sorted layout, JSON plumbing", "DESIGN.md §7 C19"),
+ "C19": ("proof that go/gcsizes implements the compiler's layout rules for every type: Sizeof, Alignof and Offsetsof equal a trusted specification transcribed from go/types' gcSizes (basic sizes, strings/slices/interfaces, arrays, structs with trailing zero-size field rule, complex alignment, max-align clamp) via mutual induction; cmd/structlayout.sizes appends entries that tile [base, base + the compiler's size of the struct) without gaps or overlaps (first entry starts at base, every entry ends where the next starts, the last ends at base + size, by induction over nesting) and leave earlier entries untouched; structlayout-optimize: align, offsetsof, size, Swap, Less is the documented order and a strict weak order, pad produces a tiling of [0,total) in which every field is aligned and total is a multiple of the largest alignment",
+         "assumed: the transcription of the compiler's rules (axioms gcspec, listed), go/types observers, targets (8,8) and (4,4) only; sort.Sort sorts w.r.t. Less (optimize is one call of it); go/types' Struct.Underlying is the identity (axiom); NOT decided: that plain fields are reported at exactly the compiler's offsets inside the tiling (only start/chain/end are stated), combine, minimality of the sorted layout, JSON plumbing", "DESIGN.md §7 C19"),
  "C20": ("proof that a version-restricted problem is reported exactly when the effective language and standard-library versions lie in the range: report.Report (iff), the four option setters set exactly their own field (frame), code.StdlibVersion / LanguageVersion follow the documented rules",
          "assumed: go/version.Compare, types.Info.FileVersions, Package.GoVersion (dependencies); the loader (loadFromSource) passes the -go flag value or the module version to types.Config.GoVersion (at-call assertion) and the flag parser accepts exactly module|1.N; NOT decided: go/types honouring GoVersion", "DESIGN.md §7 C20"),
 }
